@@ -709,7 +709,9 @@ VERSION_POOL = ["", "0", "1", "9", "00", "01", "10", "9999", "0999", "10000", "a
 ID_SHORT_POOL = ["", "a", "A", "z", "Z", "a1", "a_", "_a", "1a", "a-b", "a b", "a.b", "ä", "aä", "äa", "a\n", "a" * 128, "a" * 129,
                  "A" * 127 + "_", "a" * 127 + "-", "@", "[", "`", "{", "/", ":", "aZ09_", "Ab_9", "١a", "a١", "ǅ", "aǅ"]
 TAGS_ASCII = ["en", "de", "en-US", "de-", "e", "E", "EN", "En", "eN", "eng", "e1", "1e", "-", "-en", "", "e-", "en_US", "a b", "zz", "az",
-              "aZ", "a`", "a{", "`a", "en-" + "x" * 40]
+              "aZ", "a`", "a{", "`a", "en-" + "x" * 40,
+              # (round 7) line ends and blanks at the end of the language code: not part of a tag ('$' of a regular expression matches before a final newline)
+              "de\n", "en\r", "de\t", "de ", "\nde", "de\n-x", "en-US\n", "d\n"]
 TAGS_NONASCII = ["ää", "äa", "aä", "Ää", "ÄÄ", "a中", "中中", "αα", "ßa", "Αα", "אא", "äß-x"]
 INT_VALUES = ["0", "7", "12", "007", "٣", "١٢", "²", "½", "一", "-1", "+1", " 1", "1 ", "1.0", "a", "1a", "1_0", "x"]
 
